@@ -142,6 +142,20 @@ func (g *gen) part(richness, pInvalid int, allowBad bool) *Part {
 			p.Pairs = append(p.Pairs, [2]int{n*10 + i, n*10 + i + 5})
 		}
 	}
+	if g.pct(richness / 3) {
+		p.Arr = []string{fmt.Sprintf("a%d", n), fmt.Sprintf("b%d", n)}
+	}
+	if g.pct(richness / 3) {
+		p.When = sp(fmt.Sprintf("2022-05-%02dT06:07:08Z", 1+n%27))
+	}
+	if g.pct(richness / 3) {
+		for i, k := 0, g.in(1, 2); i < k; i++ {
+			p.Peers = append(p.Peers, PeerSpec{S: fmt.Sprintf("peer%d-%d", n, i), X: n*10 + i})
+		}
+	}
+	if g.pct(richness / 3) {
+		p.PM = map[string]string{words[g.r.IntN(len(words))]: fmt.Sprintf("pm%d", n)}
+	}
 	if g.pct(richness) {
 		p.NestS = sp(fmt.Sprintf("ns%d", n))
 	}
@@ -513,7 +527,7 @@ func genCore(prop string, seed uint64, faulty bool) *Scenario {
 		}
 		sc.Clients = append(sc.Clients, c)
 	}
-	if g.pct(k.stopper) {
+	if g.pct(base(k.stopper, 4)) {
 		// the Config context ends at an arbitrary point of everybody else's work
 		c := ClientSpec{Name: "stopper", Kind: "stopper"}
 		for o, n := 0, g.in(0, 3); o < n; o++ {
